@@ -135,14 +135,24 @@ def shim_check(work):
     return fails
 
 
+def doc_default(cs):
+    """the default data stream type as the *document* states it (`$is-default: true`), not as the configuration object
+    built by the code under test reports it"""
+    import yaml
+    doc = yaml.safe_load(cs.text.split('\n', 1)[1])
+    names = [n for n, d in doc['trace']['type']['data-stream-types'].items() if d.get('$is-default') is True]
+    return names[0] if names else None
+
+
 def macro_expansions(cs, work):
     """preprocessor view of the shorthand macros and of the tracepoint() shim"""
     d = os.path.dirname(cs.exe)
     fp, p = cs.ir['prefix']['file'], cs.ir['prefix']['ident']
     out = {}
-    if cs.ir['default'] is None:
+    dflt = doc_default(cs)
+    if dflt is None:
         return out, {}
-    dd = [x for x in cs.ir['dsts'] if x['name'] == cs.ir['default']][0]
+    dd = [x for x in cs.ir['dsts'] if x['name'] == dflt][0]
     src = f'#include "{fp}.h"\n' + ''.join(f'MACRO {e["name"]} = {p}trace_{e["name"]} ;\n' for e in dd['erts'])
     tp = {}
     if cs.ir['hdropts']['prefix'] and cs.ir['hdropts']['dst']:
@@ -202,12 +212,12 @@ def run(c):
         want = dict(x.split('=') for x in model[2].split()) if model[2] else {}
         for ev, got in exp.items():
             stats['macros_checked'] += 1
-            if got != f'{p}{cs.ir["default"]}_trace_{ev}' or want.get(f'{p}trace_{ev}') != got:
+            if got != f'{p}{doc_default(cs)}_trace_{ev}' or (cs.ir['default'] == doc_default(cs) and want.get(f'{p}trace_{ev}') != got):
                 c.violation({'property': 'C19', 'kind': 'shorthand macro does not resolve to the default stream tracing function',
                              'macro': f'{p}trace_{ev}', 'expands_to': got, 'config_yaml': cs.text})
         for ev, got in tp.items():
             stats['tracepoint_shims_checked'] += 1
-            if got != f'{p}{cs.ir["default"]}_trace_{ev}':
+            if got != f'{p}{doc_default(cs)}_trace_{ev}':
                 c.violation({'property': 'C19', 'kind': 'tracepoint() shim does not resolve to the tracing function',
                              'event': ev, 'expands_to': got, 'config_yaml': cs.text})
         # CLI file names, with and without --prefix
